@@ -319,6 +319,42 @@ def run_volume(case):
     return res
 
 
+def run_threads20(case):
+    """Two overlapping calls of a weight utility from two threads: every schedule with one preemption (see mc/threads.py).  Both results must be
+    what the calls return when they do not overlap."""
+    from mc import threads
+    from tempest.tools import volume_variation, trim_weights, effective_sample_size
+
+    res = Res()
+    fn = case["fn"]
+    xa, xb = _points(12, 2), _points(12, 2)[::-1] * 3.0 + 1.0
+    wa = np.array([1, 2, 5, 1, 1, 3, 1, 2, 1, 1, 4, 1], dtype=float)
+    wb = wa[::-1].copy() ** 2
+    if fn == "vv":
+        fA, fB = (lambda: float(volume_variation(xa.copy(), wa.copy()))), (lambda: float(volume_variation(xb.copy(), wb.copy())))
+    elif fn == "trim":
+        fA = lambda: [np.asarray(t, dtype=float).tolist() for t in trim_weights(np.arange(12), wa.copy(), ess=0.9, bins=10)]
+        fB = lambda: [np.asarray(t, dtype=float).tolist() for t in trim_weights(np.arange(12), wb.copy(), ess=0.5, bins=10)]
+    else:
+        fA, fB = (lambda: float(effective_sample_size(wa.copy()))), (lambda: float(effective_sample_size(wb.copy())))
+    with np.errstate(all="ignore"):
+        nlines, refA = threads.line_events(fA)
+        refB = fB()
+        for k in range(1, nlines + 1):
+            if case.get("k") is not None and case["k"] != k:
+                continue
+            rA, rB, where = threads.one_preemption(fA, fB, k)
+            res.evals += 1
+            res.trans += 1
+            res.outcome(("threads", fn, k), nontrivial=True)
+            if rA != refA or rB != refB:
+                res.violate(f"threads:{fn}:one-preemption", f"{fn} interrupted before its library line #{k} ({where}) by a complete call on other data in another thread: results {rA} / {rB}, without overlap {refA} / {refB}", dict(case, k=k))
+                break
+    res.states += nlines
+    res.traces += 1
+    return res
+
+
 def run_session20(case):
     """posterior(trim) on one sampler object across save / load / iterate sequences: the trimming contract w.r.t. the CURRENT weights."""
     from mc import session
@@ -504,7 +540,7 @@ def run_forms(case):
     return res
 
 
-KINDS = {"forms": run_forms, "session": run_session20, "callsites": run_callsites, "ess": run_ess, "trim": run_trim, "long": run_long, "volume": run_volume}
+KINDS = {"threads": run_threads20, "forms": run_forms, "session": run_session20, "callsites": run_callsites, "ess": run_ess, "trim": run_trim, "long": run_long, "volume": run_volume}
 
 
 def plan(ctx):
@@ -537,6 +573,7 @@ def plan(ctx):
     fcs += [{"kind": "forms", "fn": "trim", "lens": [L], "ess": e, "bins": b} for L in (1, 2, 3, 4) for e in (0.5, 0.99) for b in (2, 10)]
     fcs += [{"kind": "forms", "fn": f, "lens": [3, 4] if f == "vvw" else [1, 2, 3]} for f in ("vvw", "vvx")]
     ctx.explore("input-forms-and-call-history", fcs)
+    ctx.explore("overlapping-calls-one-preemption", [{"kind": "threads", "fn": f} for f in ("vv", "trim", "ess")])
     scfg = dict(n_particles=8, d=1, ess_ratio=1.0, n_total=10 ** 6, eval="scalar", clustering=False)
     ses = [{"kind": "session", "cfg": scfg, "base": ctx.seed, "depth": 9, "patterns": [sh, 4]} for sh in range(4)]
     ses += [{"kind": "callsites", "cfg": dict(clustering=cl, cluster_every=ce, sample=k, target=t, n_particles=24, n_total=96), "base": ctx.seed}
